@@ -4,6 +4,8 @@ import Pfl.Model.CFG
 import Pfl.Oracle.CfgMem
 import Pfl.Oracle.Trees
 import Pfl.Model.BarHillel
+import Pfl.Model.CFGCounters
+import Pfl.Model.Codec
 import PflDrv.FA
 open Lean Pfl
 namespace PflDrv
@@ -57,9 +59,30 @@ partial def jTree : PTree → Json
 
 def cfgFuel : Nat := 100000
 
+def jComp : Codec.Comp → Json
+  | .var v => Json.arr #[jStr "v", jStr (String.ofList v)]
+  | .ter t => Json.arr #[jStr "t", jStr (String.ofList t)]
+  | .eps => Json.arr #[jStr "e", jStr ""]
+
 def cfgHandle (op : String) (j : Json) : R Json := do
+  if op == "cfg.codec" then
+    let toks ← asStrList (← field j "toks")
+    return jList (fun (t : String) => Json.mkObj [
+      ("varText", jStr (String.ofList (Codec.varToText t.toList))),
+      ("terText", jStr (String.ofList (Codec.terToText t.toList))),
+      ("read", jComp (Codec.readComponent t.toList))]) toks
   let G ← asCFG (← field j "G")
   match op with
+  | "cfg.counters" =>
+    let nullable ← asBool (← field j "nullable")
+    let (rem, imp, added) := G.buildTables
+    match G.genCounters nullable rem imp added cfgFuel with
+    | none => throw "fuel"
+    | some (found, rem') =>
+      pure (Json.mkObj [("found", jSymList found),
+        ("rem0", jList (jPair jStr (jList jNat)) rem), ("rem", jList (jPair jStr (jList jNat)) rem'),
+        ("imp", jList (fun (e : Sym × String × Nat) => Json.arr #[jSym e.1, jStr e.2.1, jNat e.2.2]) imp),
+        ("added", jList jStr added)])
   | "cfg.classes" =>
     pure (Json.mkObj [("generating", jSymList G.generating), ("nullable", jSymList G.nullable),
       ("reachable", jSymList G.reachable), ("isEmpty", jBool G.isEmpty),
